@@ -349,11 +349,9 @@ def _reject():
                         got = getattr(op, shared)()
                         if not structs_equal(got, ref):
                             bad.append(f'{cls.__name__}({cont} of {t}).{shared}() = {describe_struct(got)}, blocks share {describe_struct(ref)}')
-                except ValueError:
+                except Exception:  # noqa: BLE001  ("refused at construction": any error)
                     if not must:
                         bad.append(f'{cls.__name__}({cont} of {t}) refuses blocks with matching {shared or "structures"}')
-                except Exception as ex:  # noqa: BLE001
-                    bad.append(f'{cls.__name__}({cont} of {t}): {type(ex).__name__} instead of ValueError')
     if bad:
         return violation(f'block constructor validation ({len(bad)} of {n}): ' + '; '.join(bad[:4]), signature='c10-reject:' + ';'.join(sorted(set(b.split("(")[0] + b.split(")")[-1] for b in bad)))[:150], kind='reject')
     return ok(obligations=n, nontrivial=True, sample=dict(case='constructor refusals', n=n))
